@@ -1,8 +1,15 @@
+import RactorModel.Lemmas.GenElection
 import RactorModel.Lemmas.TwoNode
 import RactorModel.Lemmas.Agreement
 import RactorModel.Lemmas.HandshakeRefine
 import RactorModel.Lemmas.HandshakeProgress
 import RactorModel.Lemmas.NodeState
+import RactorModel.Lemmas.CheckSession
+import RactorModel.Lemmas.HandshakeDial
+import RactorModel.Lemmas.HandshakeFail
+import RactorModel.Lemmas.HandshakeRefineB
+import RactorModel.Lemmas.Reconnect
+import RactorModel.Lemmas.HandshakePre
 
 /-!
 # C18 — duplicate connections converge on one and the same link
@@ -246,6 +253,126 @@ theorem handshake_comes_to_rest (o : Ordering) (cs : List Conn) (ops : List HOp)
   rw [hsMu_init] at this
   omega
 
+/-- **Late and repeated dials.** Connections are dialled at ANY time of the run (`DOp.dial`) —
+before, between and after the handshakes of the others, also when a link is already up — with
+fresh session ids, any initiator and any nonce; all other steps are those of
+`handshake_converges_on_one_link`. At EVERY moment of every such run, for the winner `acc` of the
+full election over the connections dialled SO FAR (there is one as soon as something was dialled):
+
+* `acc` is open on both nodes (no step taken so far has closed it);
+* if the run is at rest, both nodes hold exactly `[acc]`.
+
+So a link that was elected, ready and at rest IS displaced when a later dial wins the election over
+the larger set (the example below) — and then both nodes move to the same new link. -/
+theorem late_dials_converge (o : Ordering) (ho : o ≠ .eq) (ops : List DOp)
+    (hA : ((dials ops).map (·.idA)).Nodup) (hB : ((dials ops).map (·.idB)).Nodup) :
+    (dRun o ops).1 = dials ops ∧
+    (dials ops ≠ [] → ∃ acc, IsWinner o (dials ops) acc) ∧
+    ∀ acc, IsWinner o (dials ops) acc →
+      (∀ l ∈ (dRun o ops).2, l.c = acc → l.openA = true ∧ l.openB = true) ∧
+      (hsQuiescent (dRun o ops).2 = true →
+        openOnA (dRun o ops).2 = [acc] ∧ openOnB (dRun o ops).2 = [acc]) := by
+  obtain ⟨h1, ops', h2⟩ := dRun_is_hsRun o ops hA hB
+  refine ⟨h1, fun hne => exists_winner o ho _ hne hA hB, ?_⟩
+  intro acc hw
+  have X : Ctx o (dials ops) acc := ⟨ho, hA, hB, hw⟩
+  rw [h2]
+  exact ⟨(hsRun_inv X ops').accOpen, (hsRun_inv X ops').quiescent X⟩
+
+/-- displacement of a ready link: c0 (nonce 9) is dialled, authenticates on both nodes, the run is
+at rest with `[c0]`; then c1 (same direction, nonce 3) is dialled: after its handshake both nodes
+are at rest with `[c1]`. -/
+example :
+    let c0 : Conn := ⟨false, 9, 10, 20⟩
+    let c1 : Conn := ⟨false, 3, 11, 21⟩
+    let ops1 : List DOp := [.dial c0, .hs (.authA 10), .hs (.authB 20)]
+    let ops2 : List DOp := ops1 ++ [.dial c1, .hs (.preA 11), .hs (.authA 11), .hs (.authB 21), .hs (.seeB 20)]
+    hsQuiescent (dRun .gt ops1).2 = true ∧ openOnA (dRun .gt ops1).2 = [c0] ∧ openOnB (dRun .gt ops1).2 = [c0] ∧
+    hsQuiescent (dRun .gt ops2).2 = true ∧ openOnA (dRun .gt ops2).2 = [c1] ∧ openOnB (dRun .gt ops2).2 = [c1] := by
+  decide
+
+/-- **Never two links, never different links — whatever fails.** Late dials (`FOp.dial`), the
+election steps of both nodes (`FOp.hs`) AND either end of any connection going away at any time
+for a reason outside the election (`FOp.failA` / `FOp.failB`: transport failure, the session's own
+`CheckSession` failing or timing out so that it closes / stops itself), in any order: whenever such
+a run is at rest, both nodes hold the SAME connections, and at most ONE. What is lost compared to
+`late_dials_converge` is "at least one": if the elected link goes away after its competitors were
+closed, both nodes are left with no link until somebody dials again (example below; on the real
+code: finding F12, repaired). -/
+theorem with_failures_never_two_links (o : Ordering) (ho : o ≠ .eq) (ops : List FOp)
+    (hA : ((fDials ops).map (·.idA)).Nodup) (hB : ((fDials ops).map (·.idB)).Nodup)
+    (hq : hsQuiescent (fRun o ops) = true) :
+    openOnA (fRun o ops) = openOnB (fRun o ops) ∧ (openOnA (fRun o ops)).length ≤ 1 := by
+  have I0 : FInv ([] : List Link) := by
+    refine ⟨⟨?_, ?_⟩, ⟨?_, ?_⟩⟩ <;> simp [activeA, activeB]
+  have I := fRun_aux o ho ops [] I0 (by simpa using hA) (by simpa using hB)
+  exact I.atRest hq
+
+/-- what is lost: c0 is up on both nodes; c1 (lower nonce) is dialled and wins on node B, which
+closes c0; before node A gets to elect, its end of c1 gives up (`failA`): at rest NO link is left,
+although two connections existed — the model of finding F12. With a re-dial the nodes converge again. -/
+example :
+    let c0 : Conn := ⟨false, 9, 10, 20⟩
+    let c1 : Conn := ⟨false, 3, 11, 21⟩
+    let c2 : Conn := ⟨true, 5, 12, 22⟩
+    let ops : List FOp := [.dial c0, .hs (.authA 10), .hs (.authB 20), .dial c1, .hs (.authB 21),
+                           .failA 11, .hs (.seeA 10), .hs (.seeB 21)]
+    hsQuiescent (fRun .gt ops) = true ∧ openOnA (fRun .gt ops) = [] ∧ openOnB (fRun .gt ops) = [] ∧
+    hsQuiescent (fRun .gt (ops ++ [.dial c2, .hs (.authA 12), .hs (.authB 22)])) = true ∧
+    openOnA (fRun .gt (ops ++ [.dial c2, .hs (.authA 12), .hs (.authB 22)])) = [c2] := by
+  decide
+
+/-- **At every instant** of every run (late dials, election steps, failing ends — not only after one
+`commit` and not only at rest): the sessions a node holds authenticated and open all have ONE direction
+and ONE nonce, and on the node that accepted them there is AT MOST ONE. (On the initiating node several
+same-nonce dials may stay authenticated until the acceptor's choice closes all but one.) -/
+theorem at_every_instant_at_most_one_on_the_acceptor (o : Ordering) (ho : o ≠ .eq) (ops : List FOp)
+    (hA : ((fDials ops).map (·.idA)).Nodup) (hB : ((fDials ops).map (·.idB)).Nodup) :
+    ((∀ c ∈ activeA (fRun o ops), ∀ c' ∈ activeA (fRun o ops), c.aInit = c'.aInit ∧ nz c.nonce = nz c'.nonce) ∧
+     ((∀ c ∈ activeA (fRun o ops), c.aInit = false) → (activeA (fRun o ops)).length ≤ 1)) ∧
+    ((∀ c ∈ activeB (fRun o ops), ∀ c' ∈ activeB (fRun o ops), c.aInit = c'.aInit ∧ nz c.nonce = nz c'.nonce) ∧
+     ((∀ c ∈ activeB (fRun o ops), c.aInit = true) → (activeB (fRun o ops)).length ≤ 1)) :=
+  fRun_inv o ho ops hA hB
+
+/-- **One ready session per peer** (trace theorem). `node_session_ready` events are logged per node
+(`ROp.readyA` / `ROp.readyB`: emitted iff `is_elected`), interleaved arbitrarily with late dials,
+election steps and failing ends. Whenever the run is at rest: all the sessions reported ready on a
+node that are still alive are ONE session, and the live ready sessions of the two nodes are the two
+ends of ONE connection — the single link both nodes hold. (Earlier ready events of sessions closed
+since — a displaced link — remain in the log; they are not live.) -/
+theorem one_live_ready_session_per_peer (o : Ordering) (ho : o ≠ .eq) (ops : List ROp)
+    (hA : ((fDials (rProj ops)).map (·.idA)).Nodup) (hB : ((fDials (rProj ops)).map (·.idB)).Nodup)
+    (hq : hsQuiescent (rRun o ops).w = true) :
+    ∀ a ∈ liveReadyA (rRun o ops), ∀ b ∈ liveReadyB (rRun o ops),
+      ∃ c, openOnA (rRun o ops).w = [c] ∧ openOnB (rRun o ops).w = [c] ∧ a = c.idA ∧ b = c.idB := by
+  have hw := rRun_w o ops
+  have hq' : hsQuiescent (fRun o (rProj ops)) = true := by rw [← hw]; exact hq
+  obtain ⟨hAB, hlen⟩ := with_failures_never_two_links o ho (rProj ops) hA hB hq'
+  rw [← hw] at hAB hlen
+  intro a ha b hb
+  simp only [liveReadyA, liveReadyB, List.mem_filter, List.any_eq_true, Bool.and_eq_true, beq_iff_eq] at ha hb
+  obtain ⟨_, l, hl, hla, hlo⟩ := ha
+  obtain ⟨_, l', hl', hlb, hlo'⟩ := hb
+  have h1 : l.c ∈ openOnA (rRun o ops).w := List.mem_map.mpr ⟨l, List.mem_filter.mpr ⟨hl, hlo⟩, rfl⟩
+  have h2 : l'.c ∈ openOnB (rRun o ops).w := List.mem_map.mpr ⟨l', List.mem_filter.mpr ⟨hl', hlo'⟩, rfl⟩
+  rw [← hAB] at h2
+  match hL : openOnA (rRun o ops).w, hlen, h1, h2 with
+  | [c], _, h1, h2 =>
+    simp only [List.mem_singleton] at h1 h2
+    exact ⟨c, rfl, by rw [← hAB, hL], by rw [← hla, h1], by rw [← hlb, h2]⟩
+  | [], _, h1, _ => simp at h1
+  | _ :: _ :: _, hlen, _, _ => simp at hlen
+
+/-- non-vacuity: c0 comes up and is reported ready on both nodes, c1 (lower nonce) displaces it and is
+reported ready: the logs hold two events per node, the live ready session is c1's on both. -/
+example :
+    let c0 : Conn := ⟨false, 9, 10, 20⟩
+    let c1 : Conn := ⟨false, 3, 11, 21⟩
+    let s := rRun .gt [.f (.dial c0), .f (.hs (.authA 10)), .f (.hs (.authB 20)), .readyA 10, .readyB 20,
+      .f (.dial c1), .f (.hs (.authA 11)), .f (.hs (.authB 21)), .readyA 10, .readyA 11, .readyB 21, .f (.hs (.seeB 20))]
+    hsQuiescent s.w = true ∧ s.logA = [10, 11] ∧ s.logB = [20, 21] ∧ liveReadyA s = [11] ∧ liveReadyB s = [21] := by
+  decide
+
 /-- (tie of the `authA` step to the `NodeServerState` model that the correspondence run compares
 with `node.rs`) `commit_authenticated` on node A's state — one registered session per connection
 open on A — elects among exactly the step's `activeA (markA w a)` and names as losers exactly the
@@ -265,6 +392,52 @@ theorem check_candidate_is_the_pre_step (nameA nameB : String) (w : List Link) (
     ((nsOfA nameA nameB w).checkCandidate a = .otherContinues) ↔
       (electA (nameOrd nameB nameA) (candA w a)).contains a = false :=
   checkCandidate_is_stepPreA nameA nameB w a hnd h
+
+/-- (the two nodes compare the names the other way round) `peer_name.cmp(this_node_name)` on node B
+is the swap of node A's comparison, and it is `Equal` only for equal names — the facts behind
+`electB o = elect o.swap ∘ viewB` and the hypothesis `o ≠ .eq` ("distinct node names") of the
+convergence theorems. -/
+theorem name_order_is_antisymmetric (a b : String) :
+    nameOrd a b = (nameOrd b a).swap ∧ (nameOrd a b = .eq ↔ a = b) :=
+  ⟨nameOrd_swap a b, nameOrd_eq_iff a b⟩
+
+/-- (B-side tie of the `authB` step) `commit_authenticated` on node B's `NodeServerState` — its own
+name `nameB`, peer `nameA`, one registered session per connection open on B — elects with B's own
+comparison `nameOrd nameA nameB`, which is exactly the step's `electB (nameOrd nameB nameA)`, and
+names as losers exactly the sessions the step closes. -/
+theorem commit_is_the_auth_step_on_B (nameA nameB : String) (w : List Link) (b : Nat)
+    (h : pendingB w b = true) :
+    ∃ st', (nsOfB nameB nameA w).commit b =
+      some (st', (electB (nameOrd nameB nameA) (activeB (markB w b))).contains b,
+        ((markB w b).filter (fun l => l.authB && l.openB &&
+          !(electB (nameOrd nameB nameA) (activeB (markB w b))).contains l.c.idB)).map (·.c.idB)) :=
+  commit_is_stepAuthB nameB nameA w b h
+
+/-- (B-side tie of the `preB` step) -/
+theorem check_candidate_is_the_pre_step_on_B (nameA nameB : String) (w : List Link) (b : Nat)
+    (hnd : ((w.map (·.c)).map (·.idB)).Nodup) (h : pendingB w b = true) :
+    ((nsOfB nameB nameA w).checkCandidate b = .otherContinues) ↔
+      (electB (nameOrd nameB nameA) (candB w b)).contains b = false :=
+  checkCandidate_is_stepPreB nameB nameA w b hnd h
+
+/-- (the pre-authentication check as the session performs it) The session calls `CheckSession` with the
+peer's name and its own nonce, not `check_candidate`. On either node's state in the handshake world
+that call answers `check_candidate` of the one session carrying that nonce — the `preA` / `preB` step,
+by `check_candidate_is_the_pre_step{,_on_B}` — and `NoOtherConnection` (carry on) when several open
+sessions share the nonce (legacy 0, repeated nonces). So the step the code takes (`stepPreSA` /
+`stepPreSB`, compared with the real `check_session` by the `hpsA` / `hpsB` ops) is a `pre` step or
+nothing, and every theorem about `hsStep` runs covers it. -/
+theorem check_session_is_the_pre_step_or_nothing (nameA nameB : String) (o : Ordering) (w : List Link) (n x : Nat) :
+    ((∀ a, matchA w n = [a] →
+        (nsOfA nameA nameB w).checkSession nameB n = (nsOfA nameA nameB w).checkCandidate a) ∧
+     (2 ≤ (matchA w n).length → (nsOfA nameA nameB w).checkSession nameB n = .noOther)) ∧
+    ((∀ b, matchB w n = [b] →
+        (nsOfB nameB nameA w).checkSession nameA n = (nsOfB nameB nameA w).checkCandidate b) ∧
+     (2 ≤ (matchB w n).length → (nsOfB nameB nameA w).checkSession nameA n = .noOther)) ∧
+    (stepPreSA o w x = stepPreA o w x ∨ stepPreSA o w x = w) ∧
+    (stepPreSB o w x = stepPreB o w x ∨ stepPreSB o w x = w) :=
+  ⟨checkSession_nsOfA nameA nameB w n, checkSession_nsOfB nameA nameB w n,
+   stepPreSA_cases o w x, stepPreSB_cases o w x⟩
 
 /-- Non-vacuity: three connections (both nodes dialled, one legacy nonce); node B authenticates
 everything first, node A last, closes are noticed late — the run comes to rest with one link,
@@ -303,6 +476,95 @@ theorem unauthenticated_cannot_influence_ready (thisName : String) (l1 l2 : List
     (u : Session) (id : Nat) (hu : u.auth = false) (hid : u.id ≠ id) :
     (NS.mk thisName (l1 ++ u :: l2)).isElected id = (NS.mk thisName (l1 ++ l2)).isElected id :=
   isElected_insert thisName l1 l2 u id hu hid
+
+/-- (non-interference, the function the sessions call) `check_candidate` is not what a session
+asks: it asks `CheckSession` with its peer's name and its own nonce (`check_session`), which
+first looks for the sessions registered under that (name, nonce) — authenticated or not. For an
+asker `s` (registered, wire-valid nonce) and ANY unauthenticated other session `u`: the reply with
+`u` in the table is the reply without `u`, or `NoOtherConnection`; and it IS the reply without `u`
+unless `u` claims exactly the asker's (name, nonce). Equality does NOT hold in general (example
+below): a spoofer that shares (name, nonce 0) turns `OtherConnectionContinues` into
+`NoOtherConnection`. -/
+theorem unauthenticated_can_only_let_continue (thisName : String) (l1 l2 : List Session) (u s : Session)
+    (peer : String) (hu : u.auth = false) (hs : s ∈ l1 ++ l2) (hp : s.peerName = some peer)
+    (hw : s.conn ≠ some 0) (hid : ∀ x ∈ l1 ++ l2, x.id ≠ u.id) :
+    ((NS.mk thisName (l1 ++ u :: l2)).checkSession peer (s.conn.getD 0) =
+        (NS.mk thisName (l1 ++ l2)).checkSession peer (s.conn.getD 0) ∨
+     (NS.mk thisName (l1 ++ u :: l2)).checkSession peer (s.conn.getD 0) = .noOther) ∧
+    ((u.peerName == some peer && u.conn == (if s.conn.getD 0 == 0 then none else some (s.conn.getD 0))) = false →
+     (NS.mk thisName (l1 ++ u :: l2)).checkSession peer (s.conn.getD 0) =
+        (NS.mk thisName (l1 ++ l2)).checkSession peer (s.conn.getD 0)) :=
+  checkSession_insert thisName l1 l2 u s peer hu hs hp hw hid
+
+/-- (no veto) Consequently an unauthenticated session can never make `CheckSession` tell another
+session to stop: a reply that lets the asker continue without the spoofer lets it continue with it. -/
+theorem unauthenticated_cannot_veto_check_session (thisName : String) (l1 l2 : List Session) (u s : Session)
+    (peer : String) (hu : u.auth = false) (hs : s ∈ l1 ++ l2) (hp : s.peerName = some peer)
+    (hw : s.conn ≠ some 0) (hid : ∀ x ∈ l1 ++ l2, x.id ≠ u.id)
+    (hc : ((NS.mk thisName (l1 ++ l2)).checkSession peer (s.conn.getD 0)).continues = true) :
+    ((NS.mk thisName (l1 ++ u :: l2)).checkSession peer (s.conn.getD 0)).continues = true := by
+  rcases (checkSession_insert thisName l1 l2 u s peer hu hs hp hw hid).1 with h | h
+  · rw [h]; exact hc
+  · rw [h]; rfl
+
+/-- the flip (the auditor's counter-example, reproduced on the real `NodeServerState` by the
+`ni checks` ops): session 1 (legacy nonce, unauthenticated) loses against the authenticated session 2;
+a spoofer 3 sharing (name, nonce 0) makes its query ambiguous and the reply `NoOtherConnection`. What
+survives among AUTHENTICATED sessions is decided by `commit_authenticated` alone, which the spoofer
+cannot influence (`unauthenticated_cannot_influence_commit`). -/
+example :
+    (NS.mk "b@h" [⟨1, true, some "a@h", none, false⟩, ⟨2, true, some "a@h", some 5, true⟩]).checkSession "a@h" 0
+      = .otherContinues ∧
+    (NS.mk "b@h" [⟨1, true, some "a@h", none, false⟩, ⟨3, true, some "a@h", none, false⟩,
+                  ⟨2, true, some "a@h", some 5, true⟩]).checkSession "a@h" 0 = .noOther := by decide
+
+/-- (session death: the `NodeServer` forgets it) After the `ActorTerminated` / `ActorFailed` arm of
+`handle_supervisor_evt` removed a session, nothing of it is left: it is not found, not listed by
+`GetSessions`, not a candidate of any election, not elected, and a `check_candidate` for it says
+"another connection continues". -/
+theorem closed_session_leaves_no_trace (st : NS) (id : Nat) :
+    (st.close id).find id = none ∧ id ∉ (st.close id).listed ∧
+    (∀ peer b, id ∉ ((st.close id).candidatesFor peer b).map (·.id)) ∧
+    (st.close id).isElected id = false ∧ (st.close id).checkCandidate id = .otherContinues :=
+  close_no_trace st id
+
+/-- (re-election on reconnection) When every session of `peer` has gone (the link died), a freshly
+opened session — either direction, any nonce incl. the legacy 0 — that registers `peer`'s name and
+authenticates is elected: `commit_authenticated` lets it survive and closes nobody, `GetSessions`
+lists it, `is_elected` holds (it will be reported ready) and its own `CheckSession` answers
+`NoOtherConnection`. Sessions of OTHER peers, authenticated or not, are irrelevant. -/
+theorem reconnection_is_elected (st : NS) (peer : String) (id : Nat) (srv : Bool) (n : Nat)
+    (hnone : ∀ s ∈ st.sessions, s.peerName ≠ some peer) (hfresh : ∀ s ∈ st.sessions, s.id ≠ id) :
+    ∃ st2, (((st.opened id srv).register id peer n).1).commit id = some (st2, true, []) ∧
+      id ∈ st2.listed ∧ st2.isElected id = true ∧ st2.checkSession peer n = .noOther :=
+  reconnect_elected st peer id srv n hnone hfresh
+
+/-- (the link died, the peer reconnects) Take ANY `NodeServerState`; the supervision handler removes
+every session that claims `peer`'s name (`closeAll (sessionsOf peer)` — the link and all its
+duplicates are gone). A new connection (`ConnectionOpened`, fresh actor id, either direction) that
+registers `peer` with any nonce and authenticates is accepted afresh: its commit survives with no
+losers, it is listed and elected, and its own `CheckSession` answers `NoOtherConnection` — nothing
+of the dead sessions can veto or displace it. (Oracle clause `reconnection-not-accepted-afresh` of
+the `fresh` ops, run through the real `handle_supervisor_evt`.) -/
+theorem reconnection_is_accepted_afresh (st : NS) (peer : String) (id : Nat) (srv : Bool) (n : Nat)
+    (hfresh : ∀ s ∈ st.sessions, s.id ≠ id) :
+    ∃ st2, (((((st.closeAll (st.sessionsOf peer)).open id srv).register id peer n).1).commit id
+        = some (st2, true, [])) ∧
+      id ∈ st2.listed ∧ st2.isElected id = true ∧ st2.checkSession peer n = .noOther := by
+  have hs := (closeAll_sessions (st.sessionsOf peer) st).1
+  have hnone : ∀ s ∈ (st.closeAll (st.sessionsOf peer)).sessions, s.peerName ≠ some peer := by
+    intro s hs' hp
+    rw [hs] at hs'
+    obtain ⟨hmem, hnot⟩ := List.mem_filter.mp hs'
+    have : s.id ∈ st.sessionsOf peer := by
+      unfold NS.sessionsOf
+      exact List.mem_map.mpr ⟨s, List.mem_filter.mpr ⟨hmem, by simp [hp]⟩, rfl⟩
+    simp [this] at hnot
+  have hfr : ∀ s ∈ (st.closeAll (st.sessionsOf peer)).sessions, s.id ≠ id := by
+    intro s hs'
+    rw [hs] at hs'
+    exact hfresh s (List.mem_filter.mp hs').1
+  exact reconnect_elected (st.closeAll (st.sessionsOf peer)) peer id srv n hnone hfr
 
 /-- (stability) An elected set re-elects itself: a second election closes nothing more. -/
 theorem elected_set_is_stable (o : Ordering) (cs : List Cand) :
@@ -354,6 +616,19 @@ theorem elected_session_continues (st : NS) (hnd : (st.sessions.map (·.id)).Nod
     ∃ r, st.postAuthReply id = some r ∧ r.continues = true :=
   elected_continues st hnd hw id hel
 
+/-- (every reachable `NodeServerState` is well formed) From the empty table, under any sequence of
+`ConnectionOpened` / `UpdateSession` / `ConnectionAuthenticated` / session exits — session actor ids
+never reused while in the table —: session ids are distinct and no session carries the nonce
+`Some(0)` (`NonZeroU64`). These are the hypotheses `hnd` / `hw` of `elected_session_continues`, so
+that theorem holds in every reachable state: an authenticated, elected session is never told to stop. -/
+theorem reachable_states_are_well_formed (thisName : String) (ops : List NSOp)
+    (hf : nsFresh { thisName := thisName, sessions := [] } ops) :
+    ((nsRun thisName ops).sessions.map (·.id)).Nodup ∧ (∀ s ∈ (nsRun thisName ops).sessions, s.conn ≠ some 0) ∧
+    ∀ id, (nsRun thisName ops).isElected id = true →
+      ∃ r, (nsRun thisName ops).postAuthReply id = some r ∧ r.continues = true := by
+  have h := nsRun_wf_aux ops { thisName := thisName, sessions := [] } ⟨by simp, by simp⟩ hf
+  exact ⟨h.1, h.2, fun id hel => elected_continues _ h.1 h.2 id hel⟩
+
 /-- non-vacuity: a state with an authenticated server-side session, a second server-side
 duplicate committing, and an unauthenticated spoofer claiming the same name. -/
 def exampleNS : NS :=
@@ -377,6 +652,31 @@ example : electA .lt exampleWorld = [1] ∧ electB .lt exampleWorld = [4] := by 
 example : electA .gt [⟨false, 41, 12, 21⟩, ⟨false, 41, 11, 22⟩] = [11]
     ∧ electB .gt [⟨false, 41, 12, 21⟩, ⟨false, 41, 11, 22⟩] = [21, 22] := by decide
 
+
+/-! ### Translator tie (rs2lean): kernel-checked equivalence between the definitions that
+`extract/rs2lean.py` regenerates from the CURRENT Rust source on every run
+(`RactorModel/Generated/*.lean`) and the hand-written model functions the theorems above are
+about. A semantic change of the Rust function changes the generated text and these stop checking. -/
+
+section XlateTie
+open Generated.Election GenElection
+
+theorem generated_elect_sessions_eq_model (this peer : String) (cs : List SessionElectionCandidate) :
+    elect_sessions this peer cs = Election.elect (compare peer this) (cs.map absCand) := by
+  unfold elect_sessions Election.elect Election.pipeline
+  simp only [List.length_map, decide_eq_true_eq]
+  split
+  · simp [absCand, Function.comp_def]
+  · rw [dir_abs, nonce_abs, tie_abs]
+    simp only [List.map_map, Function.comp_def, absCand]
+    -- per value of the comparison both sides reduce (robust to a reordering of the `Ordering` arms)
+    cases compare peer this <;> rfl
+
+theorem generated_elect_sessions_covers_model (this peer : String) (cs : List Election.Cand) :
+    elect_sessions this peer (cs.map concCand) = Election.elect (compare peer this) cs := by
+  rw [generated_elect_sessions_eq_model, map_abs_conc]
+end XlateTie
+
 end C18
 
 #print axioms C18.elect_order_independent
@@ -392,11 +692,28 @@ end C18
 #print axioms C18.handshake_converges_on_one_link
 #print axioms C18.handshake_winner_is_the_elected_one
 #print axioms C18.handshake_comes_to_rest
+#print axioms C18.late_dials_converge
+#print axioms C18.with_failures_never_two_links
+#print axioms C18.at_every_instant_at_most_one_on_the_acceptor
+#print axioms C18.one_live_ready_session_per_peer
 #print axioms C18.commit_is_the_auth_step
 #print axioms C18.check_candidate_is_the_pre_step
+#print axioms C18.name_order_is_antisymmetric
+#print axioms C18.commit_is_the_auth_step_on_B
+#print axioms C18.check_candidate_is_the_pre_step_on_B
+#print axioms C18.check_session_is_the_pre_step_or_nothing
 #print axioms C18.unauthenticated_cannot_influence_commit
 #print axioms C18.unauthenticated_cannot_influence_check
 #print axioms C18.unauthenticated_cannot_influence_ready
+#print axioms C18.unauthenticated_can_only_let_continue
+#print axioms C18.unauthenticated_cannot_veto_check_session
+#print axioms C18.closed_session_leaves_no_trace
+#print axioms C18.reconnection_is_elected
+#print axioms C18.reconnection_is_accepted_afresh
 #print axioms C18.elected_set_is_stable
 #print axioms C18.commit_leaves_elected_set
+#print axioms C18.reachable_states_are_well_formed
 #print axioms C18.elected_session_continues
+-- rs2lean tie
+#print axioms C18.generated_elect_sessions_eq_model
+#print axioms C18.generated_elect_sessions_covers_model
